@@ -2,7 +2,7 @@
    statement (the generator then places breakpoint sites in the middle of the value's code, the flattener places the
    corresponding RSite pseudo-instructions in front of the statement's instruction).  Sites are no-ops for C01. *)
 From Theo Require Import Base Regex Tokens Errors Lexer Scan MacroExtract Grammar LR MacroApply Parser VMModel VMSpec GenModel Compile
-                         RefSem RefSemChk C01Statements C01Stages C01Stages3 C01Stages4 NamesStatements Gen_Lexer Gen_Consts.
+                         RefSem RefSemChk C01Statements C01Stages C01Stages3 C01Stages4 NamesStatements RefHaltStatements Gen_Lexer Gen_Consts.
 Local Open Scope Z_scope.
 
 (* tree level: the shape the parser builds (shape4 = prog4 without layout conditions), definitions on the line of their
@@ -16,7 +16,7 @@ Definition C01_anylayout_stmt : Prop :=
     run_ref_chk fuel rs = OStop rviews steps trace ->
     sim_conclusion r rviews steps.
 
-Definition C01_anylayout_budget_stmt : Prop :=
+Definition C01_anylayout_budget_unguarded_stmt : Prop :=
   forall root r rs n s,
     shape4 root = true -> headers_ok root = true -> lexable_names root = true ->
     gen true [] (Some root) = Ok r -> gr_ok r = true ->
@@ -26,7 +26,7 @@ Definition C01_anylayout_budget_stmt : Prop :=
 
 (* from source text, with no condition on the program at all: every successful compilation of files whose names contain
    no blank (a renamed macro temporary carries the name of its file) *)
-Definition C01_every_source_stmt : Prop :=
+Definition C01_every_source_unguarded_stmt : Prop :=
   forall files main c p root rs,
     Forall (fun kv => lexable (fst kv) = true) files ->
     compile files main = Ok c -> cr_ok c = true ->
@@ -37,3 +37,65 @@ Definition C01_every_source_stmt : Prop :=
          vm_run k (init (cr_prog c)) = Ok s /\ isDone s = Ok true /\
          views s = Ok vmviews /\ Forall2 view_agrees vmviews rviews /\ (steps <= k)%nat) /\
     (forall n s, run_ref_chk n rs = OFuel -> vm_run n (init (cr_prog c)) = Ok s -> isDone s = Ok false).
+
+(* ---- the budget clause needs one layout condition ------------------------------------------------------------------ *)
+(* The two statements above (budget clause for every layout) are FALSE: refuted in Proofs_C01s6x.v by the source
+     x := RUN f WITH RUN halt WITH END,      (halt: PROGRAM halt DO STOP END; f takes nine arguments)
+      1, 2, ... 8 END                        (each further argument on its own line)
+   — the VM reaches the STOP inside the first argument after 7 instructions, while the reference machine first executes
+   the eight sites of the later arguments (RefSem places the sites of a statement's values in front of the statement) and
+   needs 12 steps.  This is an artefact of counting sites as steps, not a program that terminates where it should not; the
+   clause holds as soon as values that CALL a program stand on the line of their assignment. *)
+
+(* a value that computes without a call: NAME, NUMBER, or NAME +/- NUMBER (the parser's __INC__ / __DEC__ calls) *)
+Definition no_run (v : node) : bool :=
+  match v with
+  | Node N_NAME _ _ _ _ _ => true
+  | Node N_NUMBER _ _ _ _ _ => true
+  | Node N_CALL _ _ _ (Some f)
+      (Some (Node N_SPLIT _ _ _ (Some (Node N_NAME _ _ _ _ _)) (Some (Node N_SPLIT _ _ _ (Some (Node N_NUMBER _ _ _ _ _)) None)))) =>
+      str_eqb (n_tok f) name_INC || str_eqb (n_tok f) name_DEC
+  | _ => false
+  end.
+Definition run_on_line (f : str) (l : Z) (v : node) : bool := no_run v || on_line f l v.
+(* the shape of stage 4; every assigned value that contains a RUN of a program stands on the line of its assignment *)
+Definition runs_on_line (root : node) : bool := prog4 run_on_line root.
+
+Definition C01_anylayout_budget_stmt : Prop :=
+  forall root r rs n s,
+    shape4 root = true -> headers_ok root = true -> lexable_names root = true ->
+    runs_on_line root = true ->
+    gen true [] (Some root) = Ok r -> gr_ok r = true ->
+    abstract_source (Some root) = Some rs ->
+    run_ref_chk n rs = OFuel ->
+    vm_run n (init (gr_prog r)) = Ok s -> isDone s = Ok false.
+
+(* C01 for EVERY accepted source (blank-free file names): the finished-run clause unconditionally, the budget clause
+   when values with calls are on their statement's line *)
+Definition C01_every_source_stmt : Prop :=
+  forall files main c p root rs,
+    Forall (fun kv => lexable (fst kv) = true) files ->
+    compile files main = Ok c -> cr_ok c = true ->
+    parse files main = Ok p -> pr_root p = Some root ->
+    abstract_source (Some root) = Some rs ->
+    (forall fuel rviews steps trace, run_ref_chk fuel rs = OStop rviews steps trace ->
+       exists k s vmviews,
+         vm_run k (init (cr_prog c)) = Ok s /\ isDone s = Ok true /\
+         views s = Ok vmviews /\ Forall2 view_agrees vmviews rviews /\ (steps <= k)%nat) /\
+    (runs_on_line root = true ->
+     forall n s, run_ref_chk n rs = OFuel -> vm_run n (init (cr_prog c)) = Ok s -> isDone s = Ok false).
+
+Definition C01_budget_needs_layout_stmt : Prop :=
+  ~ C01_anylayout_budget_unguarded_stmt /\ ~ C01_every_source_unguarded_stmt.
+
+(* C16 on the VM without a layout condition: every successfully compiled source (blank-free file names) without WHILE,
+   GOTO and IF halts on the VM, provided no value reaches the word limit *)
+Definition C16_vm_loop_halts_any_stmt : Prop :=
+  forall files main c p root rs,
+    Forall (fun kv => lexable (fst kv) = true) files ->
+    compile files main = Ok c -> cr_ok c = true ->
+    parse files main = Ok p -> pr_root p = Some root ->
+    RefHaltStatements.loop_only root = true ->
+    abstract_source (Some root) = Some rs ->
+    (forall fuel, run_ref_chk fuel rs <> OBad) ->
+    exists k s, vm_run k (init (cr_prog c)) = Ok s /\ isDone s = Ok true.
